@@ -2,6 +2,7 @@ import RV.C09.LitLemmas
 import RV.C09.DurLemmas
 import RV.C09.DateLemmas
 import RV.C09.EqLemmas
+import RV.C09.FloatLemmas
 /-
   C09 — "Literal ↔ Python value mapping is faithful and normalisation is idempotent":
   property statements (each first as `def Statement_… : Prop` at full strength) and theorems.
@@ -385,6 +386,60 @@ theorem binary_codecs : Statement_binary_codecs :=
     fun _ h => unhexlify_xsd h, fun _ h => b64decode_xsd h,
     fun _ _ h => h.elim unhexlify_lt b64decode_lt⟩
 
+/-! ## 8. xsd:double / xsd:float (model: `FloatModel.lean`, exact integer / rational arithmetic, no `Float`) -/
+
+/-- both floating-point datatypes are keys of `XSDToPython` mapped to `float`, and the `float` rule writes xsd:double
+    through a lexicaliser (regenerated tables) -/
+theorem float_converter_table :
+    lookupStr "double" Tables.xsdToPython = some "float" ∧ lookupStr "float" Tables.xsdToPython = some "float" ∧
+    ("float", "double", "fn") ∈ Tables.genericRules ∧ "double" ∈ Tables.numericTypes ∧ "float" ∈ Tables.numericTypes := by
+  decide
+
+/-- `Literal(float)`: whatever `_float_to_xsd` writes — `NaN`, `INF`, `-INF` (fix C09-F1), or `repr` of a finite double in
+    any of the layouts of `format_float_short` — is in the lexical space of xsd:double -/
+def Statement_float_printer_valid : Prop :=
+  ∀ v s, floatToXsd v = some s → Spec.doubleLex s = true
+
+theorem float_printer_valid : Statement_float_printer_valid := fun _ _ h => doubleLex_floatToXsd h
+
+/-- the special values and the signed zeros: XSD's spellings are read as the right value and written back in XSD's
+    spelling (never Python's `inf` / `nan`), in both directions; overflow goes to INF and underflow to a signed zero as
+    XSD's `floatingPointRound` prescribes -/
+theorem float_specials :
+    pyFloat "INF".toList = some (.inf false) ∧ pyFloat "+INF".toList = some (.inf false) ∧
+    pyFloat "-INF".toList = some (.inf true) ∧ pyFloat "NaN".toList = some .nan ∧
+    floatToXsd .nan = some "NaN".toList ∧ floatToXsd (.inf false) = some "INF".toList ∧
+    floatToXsd (.inf true) = some "-INF".toList ∧
+    pyFloat "-0".toList = some (.fin true 0 0) ∧ pyFloat "0".toList = some (.fin false 0 0) ∧
+    floatToXsd (.fin true 0 0) = some "-0.0".toList ∧ floatToXsd (.fin false 0 0) = some "0.0".toList ∧
+    pyFloat "-0.0".toList = some (.fin true 0 0) ∧ FVal.pyEq (.fin true 0 0) (.fin false 0 0) = true ∧
+    FVal.pyEq .nan .nan = false ∧
+    pyFloat "1e400".toList = some (.inf false) ∧ pyFloat "-1e-400".toList = some (.fin true 0 0) ∧
+    Spec.doubleLex "inf".toList = false ∧ Spec.doubleLex "nan".toList = false ∧ Spec.doubleLex "1e".toList = false ∧
+    Spec.doubleLex "-.5E-3".toList = true := by
+  decide +kernel
+
+/-- a zero keeps its sign and every double whose digits the search finds is written with them:
+    the defining property of `repr` — the digits read back as the same double — holds by construction of the search
+    (`readsBack`), for the decimal `D · 10^s` the digits denote -/
+def Statement_float_digits_read_back : Prop :=
+  ∀ neg m e ds decpt, m ≠ 0 → shortest neg m e = some (ds, decpt) →
+    ∃ D s, roundDec neg D s = .fin neg m e ∧ D ≠ 0 ∧ ds = rstrip0 (digits D) ∧ decpt = s + (ndigits D : Int) ∧
+      ds ≠ [] ∧ allDigits ds = true
+
+theorem float_digits_read_back : Statement_float_digits_read_back := by
+  intro neg m e ds decpt hm h
+  obtain ⟨D, s, hrb, h2, h3⟩ := shortestFrom_spec _ _ _ _ _ _ _ _ _ h
+  have hrb' : roundDec neg D s = .fin neg m e := by simpa [readsBack] using hrb
+  have hD : D ≠ 0 := by
+    intro e0
+    subst e0
+    rw [roundDec_zero] at hrb'
+    injection hrb' with _ h2 _
+    exact hm h2.symm
+  exact ⟨D, s, hrb', hD, h2, h3, by rw [h2]; exact rstrip0_ne_nil (by rw [num_digits]; exact hD),
+    by rw [h2]; exact allDigits_rstrip0 (allDigits_digits D)⟩
+
 /-! ## Non-vacuity: the hypotheses are met by concrete, non-trivial instances -/
 
 example : XsdTz (some (-50400000000)) ∧ ¬ XsdTz (some 1000000) ∧ TzOk (some 86340000000) := by
@@ -399,6 +454,11 @@ example : durationIso (-2) 10 (-273906700000) true = some "-P1Y2M3DT4H5M6.7S".to
 example : Spec.validLex .base64Binary "YW Jj ZA==".toList = true ∧ Covered .base64Binary = true ∧
     b64decode "YW Jj ZA==".toList = some [97, 98, 99, 100] ∧ Spec.validLex .base64Binary "YWJj ".toList = false ∧
     b64decode "YQ=".toList = none ∧ b64decode "YQ=a=".toList = some [97, 6] ∧ b64decode "YQ=YQ==".toList = some [97, 6, 16] ∧ b64encode [97, 98, 99, 100] = "YWJjZA==".toList := by
+  decide +kernel
+example : floatToXsd (.fin false 7205759403792794 (-56)) = some "0.1".toList ∧
+    pyFloat "0.1".toList = some (.fin false 7205759403792794 (-56)) ∧
+    floatToXsd (.fin true 5000000000000000 1) = some "-1e+16".toList ∧
+    floatToXsd (.fin false 1 (-1074)) = some "5e-324".toList ∧ pyFloat "5e-324".toList = some (.fin false 1 (-1074)) := by
   decide +kernel
 example : Spec.validLex .unsignedByte "+0255".toList = true ∧ Covered .unsignedByte = true := by decide
 example : Spec.validLex .decimal "-.50".toList = true ∧ Covered .decimal = true := by decide
